@@ -27,7 +27,9 @@ EXPLANATION = (
     "(inflateEnd / deflateEnd) on every exit; (7) a refill step of the streaming RLE decoder that gives "
     "up records an error or has nothing owed by the current run (its driving loops terminate); (8) no "
     "bounds guard adds or multiplies an unbounded 32-bit value taken from the input before widening it "
-    "to the 64-bit size it is compared with (the sum wraps and the guard admits what it exists to refuse). Decides "
+    "to the 64-bit size it is compared with (the sum wraps and the guard admits what it exists to refuse); (9) an "
+    "element of an array that a decoding call filled is sign-checked (itself, or element-wise in an earlier "
+    "validation loop) before it offsets a pointer or sizes a copy. Decides "
     "these clauses, not termination bounds in general, oversized shifts, nor safety inside zlib/zstd.")
 
 DECODER_FILES = ["src/compression/snappy.c", "src/compression/lz4.c", "src/encoding/rle.c",
@@ -66,6 +68,10 @@ def run(ctx):
     ctx.clause("C08.5 recursion bounded")
     ctx.clause("C08.6 decoder temporaries released on every exit")
     ctx.clause("C08.7 a refill step of the streaming RLE decoder that gives up records an error or has nothing owed (its driving loops terminate)")
+    ctx.clause("C08.9 a signed length decoded from the input is sign-checked before it offsets a pointer or sizes a copy")
+    from ..rules import signedoff
+    nso = signedoff.check(ctx, P.funcs_in(*(DECODER_FILES + ["src/encoding/byte_stream_split.c"])))
+    ctx.floor("C08 decoded signed lengths used as offsets / sizes", nso, 2)
     ctx.clause("C08.8 no bounds guard is computed in 32 bits from an unbounded input value and then compared with a 64-bit size")
     from ..rules import widen
     nwid = widen.check(ctx, DECODER_FILES + CODEC_WRAPPERS + ["src/encoding/byte_stream_split.c", "src/thrift/parquet_types.c"])
